@@ -1054,6 +1054,73 @@ def c14_7(ck, prog):
         ck.rule = save
 
 
+OWNER_IN = {'_dbus_list_append': True, '_dbus_list_prepend': True, '_dbus_list_insert_after': True,
+            '_dbus_list_append_link': False, '_dbus_list_prepend_link': False, '_dbus_list_insert_after_link': False,
+            '_dbus_list_insert_before_link': False}          # callee -> can fail
+OWNER_OUT = {'_dbus_list_unlink', '_dbus_list_remove_link', '_dbus_list_remove_last', '_dbus_list_remove'}
+
+
+def c14_12(ck, prog):
+    """Membership in a name's owner queue is one reference on the owner."""
+    S = 'bus/services.c'
+    r = ck.rule('C14.12', 'a place in a name\'s owner queue holds one reference on the owner: in every function of '
+                'bus/services.c that links or unlinks an element of `owners`, on every path to every exit the number '
+                'of memberships added minus removed equals the number of owner references taken (bus_owner_new, '
+                'bus_owner_ref) minus dropped (bus_owner_unref); operations that can fail count when they succeeded',
+                'PAIR', breaks='cancelling a transaction that removed an owner (out of memory while the reply to '
+                'ReleaseName is built) puts the owner back into the queue without a reference: the owner object is '
+                'returned to its pool while still queued, and the next request on that name works on freed memory',
+                floor=3)
+    n = 0
+    for fn in lib.prod_funcs(prog, {S}):
+        ops = {}
+        for b, i, c in fn.calls():
+            cal = c.get('callee')
+            if (cal in OWNER_IN or cal in OWNER_OUT) and c['args'] and \
+                    is_member(strip_addr(c['args'][0]) or c['args'][0], 'owners', 'BusService'):
+                ops[c['id']] = (+1 if cal in OWNER_IN else -1, OWNER_IN.get(cal, False))
+        if not ops:
+            continue
+        refs = {}
+        for b, i, c in fn.calls():
+            if c.get('callee') == 'bus_owner_new':
+                refs[c['id']] = (+1, True)
+            elif c.get('callee') == 'bus_owner_ref':
+                refs[c['id']] = (+1, False)
+            elif c.get('callee') == 'bus_owner_unref':
+                refs[c['id']] = (-1, False)
+        n += 1
+
+        def on_event(user, ev, ctx, ops=ops, refs=refs):
+            if ev['ev'] == 'call':
+                cid = ev['e'].get('id')
+                if cid in ops or cid in refs:
+                    return user + (cid,)
+            return user
+
+        def on_exit(user, ctx, ret, ev, ops=ops, refs=refs, fn=fn):
+            mem = ref = 0
+            for cid in user:
+                d, fallible = ops.get(cid) or refs.get(cid)
+                if fallible and ctx.result_known(cid) is False:
+                    continue
+                if cid in ops:
+                    mem += d
+                else:
+                    ref += d
+            if mem != ref:
+                ctx.report('%s can return with the queue holding %+d place(s) and %+d reference(s) more than when it was '
+                           'entered' % (fn.name, mem, ref), ev['line'] if ev else fn.line, key=('imbalance', mem - ref))
+        ex = Explorer(fn, init=(), on_event=on_event, on_exit=on_exit, calls='ALL', track='auto', cap=300000).run()
+        key = '%s:places-and-references' % fn.name
+        if ex.reports:
+            r.from_reports(ex.reports, keyfn=lambda k, rep, key=key: key)
+        else:
+            r.ok(key)
+    if n < 3:
+        raise AnalysisBroken('functions editing the owner queue: only %d found' % n)
+
+
 def run(ck):
     ck.explanation = (
         'Static rules over bus/services.c, bus/driver.c, bus/connection.c, bus/dispatch.c, bus/signals.c, '
@@ -1078,6 +1145,7 @@ def run(ck):
         c14_2f(ck, prog)
         c14_2g(ck, prog)
         c14_9(ck, prog)
+        c14_12(ck, prog)
         from rules.C12 import c12_9
         c12_9(ck, prog, 'C14.10')
         c14_7(ck, prog)
